@@ -391,6 +391,15 @@ func (t *trans) expr(e ast.Expr) string {
 					t.addExtern("requestScheme", "HTTPRequest → String")
 					return "(env.requestScheme " + t.derefd(inner.X) + ")"
 				}
+				// the scheme of a URL-valued field of one of this package's structures (`opts.URL.Scheme`): a function of the structure
+				if tv, ok := t.info.Types[inner.X]; ok && tv.Type != nil && !isPointer(tv.Type) {
+					if sn, _ := namedOf(tv.Type); sn != "" {
+						if _, own := t.structs[sn]; own {
+							t.addExtern("urlScheme_"+sn, t.leanType(ast.NewIdent(sn))+" → String")
+							return "(env.urlScheme_" + sn + " " + t.expr(inner.X) + ")"
+						}
+					}
+				}
 			}
 		}
 		// package-qualified name
@@ -526,7 +535,11 @@ func (t *trans) expr(e ast.Expr) string {
 							break
 						}
 						tvv, ok := t.info.Types[kv.Value]
-						if !ok || tvv.Type == nil || !simple(tvv.Type) {
+						isCmp := false
+						if be, isB := kv.Value.(*ast.BinaryExpr); isB && (be.Op == token.EQL || be.Op == token.NEQ) {
+							isCmp = true
+						}
+						if !isCmp && (!ok || tvv.Type == nil || !simple(tvv.Type)) {
 							continue
 						}
 						k := t.src(kv.Key)
@@ -2323,6 +2336,7 @@ func translate(repo string, p *pkgFiles, outPath string) {
 		{fn: "GetTrackedRequests", recv: "CookieRequestTracker"},
 		{fn: "GetTrackedRequest", recv: "CookieRequestTracker"},
 		{fn: "DefaultServiceProvider", as: "defaultServiceProviderTail", anchor: "var forceAuthn *bool"},
+		{fn: "DefaultSessionProvider"},
 		{fn: "GetSession", recv: "CookieSessionProvider", as: "cookieGetSession"},
 		{fn: "CreateSession", recv: "CookieSessionProvider", as: "cookieCreateSession", trace: true, mutRecv: true},
 		{fn: "Decode", recv: "JWTTrackedRequestCodec", as: "trackedRequestClaimsCheck", anchor: "if err != nil {"},
